@@ -261,7 +261,13 @@ class AbstractPathModelDAG(ABC):
             self.solve_statistics["safe_sequences_time"] = time.perf_counter() - start_time
 
         if self.optimize_with_subpath_constraints_as_safe_sequences and len(self.subpath_constraints) > 0 and not self.is_solved():
-            if self.subpath_constraints_coverage == 1 and self.subpath_constraints_coverage_length in [1, None]:
+            # A constraint can be used as a sequence that some path contains entirely only if all of its edges are required:
+            # with coverage by length, edges of length 0 (e.g. the connecting edges of a node-weighted graph) are not
+            all_edges_required = self.subpath_constraints_coverage_length is None or (
+                self.subpath_constraints_coverage_length == 1
+                and all(self.G[u][v].get(self.length_attr, 1) > 0 for constraint in self.subpath_constraints for (u, v) in constraint)
+            )
+            if self.subpath_constraints_coverage == 1 and all_edges_required:
                 start_time = time.perf_counter()
                 self.safe_lists += safetypathcovers.safe_sequences(
                     G=self.G,
